@@ -337,3 +337,154 @@ def run_sched(pid, spec, tier, seed, work, t0, no_prove):
 
 reg("C13", custom=run_sched)
 reg("C20", custom=run_sched)
+
+
+# ----------------------------------------------------------------------------
+# C19: name resolution under a matrix of environments (child processes)
+
+def py_zone_path(tzdir, name):
+    """only used to decide WHICH paths to measure for the fs oracle"""
+    rest = name[5:] if name.startswith(b"file:") else name
+    if rest.startswith(b"/"):
+        path = rest
+    else:
+        d = tzdir if tzdir else b"/usr/share/zoneinfo"
+        path = d + b"/" + rest
+    return path.split(b"\0")[0]
+
+
+def measure(path):
+    try:
+        with open(path, "rb") as f:
+            return f.read()
+    except IsADirectoryError:
+        return b""
+    except Exception:
+        return None
+
+
+def run_c19(pid, spec, tier, seed, work, t0, no_prove):
+    import subprocess, shutil, tempfile
+    from . import tzif
+    rng = C.Rng(seed * 31337 + 19)
+    const_status = C.regen_constants()
+    gate = C.grep_gate()
+    pr = {"obligations": ["(skipped)"], "discharged": [], "failed": [], "axioms": {}, "log": ""} if no_prove else C.prove(pid)
+    proof_ok = (not pr["failed"]) and (not gate) and len(pr["obligations"]) > 0
+    root = tempfile.mkdtemp(prefix="verif_c19_")
+    try:
+        tzroot = os.path.join(root, "tz")
+        os.makedirs(os.path.join(tzroot, "Zone"))
+        ny = open(os.path.join(tzif.ZONEINFO, "America/New_York"), "rb").read()
+        tk = open(os.path.join(tzif.ZONEINFO, "Asia/Tokyo"), "rb").read()
+        open(os.path.join(tzroot, "Zone", "A"), "wb").write(ny)
+        open(os.path.join(tzroot, "B"), "wb").write(tk)
+        open(os.path.join(tzroot, "trunc"), "wb").write(ny[:100])
+        open(os.path.join(tzroot, "right"), "wb").write(tzif.write_tzif(b"2", [0], [0], [(3600, 0, 0)], b"XXX\0", b"XXX-1", leapcnt=1))
+        open(os.path.join(tzroot, "unreadable"), "wb").write(tk)
+        os.chmod(os.path.join(tzroot, "unreadable"), 0)
+        open(os.path.join(tzroot, "localtime"), "wb").write(tk)
+        absA = os.path.join(tzroot, "Zone", "A").encode()
+        absB = os.path.join(tzroot, "B").encode()
+        TZDIRS = [None, b"", tzroot.encode(), os.path.join(root, "nonexistent").encode(), os.path.join(tzif.ZONEINFO).encode()]
+        TZS = [None, b"", b"B", b":B", b"localtime", b":localtime", b"::B", b"No/Such", b":" + absB, absA, b"UTC", b"Fixed/UTC+05:30:00", b"file:B"]
+        LTS = [None, absB, os.path.join(root, "missing").encode(), b"Zone/A"]
+        NAMES = [b"Zone/A", b"B", absA, absB, b"file:Zone/A", b"file:" + absA, b"", b"Zone", b"unreadable", b"trunc", b"right",
+                 b":B", b"nosuch", b"UTC", b"UTC0", b"Fixed/UTC-03:00:00", b"Fixed/UTC+24:00:00", b"Fixed/UTC+24:00:01", b"file:", b"file:file:B",
+                 b"America/New_York", b"B\0junk", b"Zone//A", b"./B", b"file:/nonexistent"]
+        drv, dlog = C.build_driver()
+        har, hlog = C.build_harness(variant="plain", harness_src="env_harness.cc")
+        if drv is None or har is None:
+            p = C.write_replay(pid, {"property": pid, "kind": "build-failure", "detail": (dlog or "")[-2000:] + (hlog or "")[-2000:]})
+            print("VIOLATION property=%s replay=%s no-failing-input-found" % (pid, p))
+            return 1
+        hx = lambda b: "NONE" if b is None else (b.hex() if b else "-")
+        all_cases, all_impl, all_drv = [], [], []
+        fs_measure = {}
+        configs = [(d, t, l) for d in TZDIRS for t in TZS for l in LTS]
+        if tier == "quick":
+            configs = [c for i, c in enumerate(configs) if c[2] is None or c[1] in (None, b"localtime", b":localtime")]
+        for ci, (tzdir, tz, lt) in enumerate(configs):
+            req = [n.hex() if n else "-" for n in NAMES] + ["LOCAL", "DEFAULT"]
+            reqf = os.path.join(work, "req%d" % ci)
+            open(reqf, "w").write("\n".join(req) + "\n")
+            env = {k: v for k, v in os.environ.items() if k not in ("TZDIR", "TZ", "LOCALTIME")}
+            if tzdir is not None:
+                env["TZDIR"] = tzdir.decode()
+            if tz is not None:
+                env["TZ"] = tz.decode()
+            if lt is not None:
+                env["LOCALTIME"] = lt.decode()
+            outf = os.path.join(work, "out%d" % ci)
+            subprocess.run([har, reqf, outf], env=env, cwd=root, stdout=subprocess.DEVNULL, stderr=subprocess.DEVNULL, timeout=60)
+            lines = open(outf).read().split("\n") if os.path.exists(outf) else []
+            # which paths may be opened: every name, and the local zone's name
+            local = tz if tz is not None else b":localtime"
+            if local.startswith(b":"):
+                local = local[1:]
+            if local == b"localtime":
+                local = lt if lt is not None else b"/etc/localtime"
+            for n in NAMES + [local]:
+                pth = py_zone_path(tzdir, n)
+                if pth not in fs_measure:
+                    cwd = os.getcwd()
+                    os.chdir(root)
+                    try:
+                        fs_measure[pth] = measure(pth)
+                    finally:
+                        os.chdir(cwd)
+            for j, n in enumerate(NAMES + [b"LOCAL"]):
+                nm = "LOCAL" if n == b"LOCAL" else (n.hex() if n else "-")
+                all_cases.append("nameres %s %s %s %s" % (hx(tzdir), hx(tz), hx(lt), nm))
+                all_impl.append(lines[j] if j < len(lines) else "?ABORT")
+            dline = lines[len(NAMES) + 1] if len(lines) > len(NAMES) + 1 else ""
+            if dline != "default_eq_utc=1":
+                all_cases.append("# default-constructed time_zone != utc_time_zone() under config %d: %r" % (ci, dline))
+                all_impl.append("default_eq_utc!=1")
+        fsf = os.path.join(work, "fs.txt")
+        with open(fsf, "w") as f:
+            for pth, data in fs_measure.items():
+                f.write("%s %s\n" % (pth.hex() if pth else "-", "NONE" if data is None else (data.hex() if data else "-")))
+        drvl, dfails = C.run_sharded(drv, all_cases, work, "drv", env={"VERIF_FS": fsf})
+        bad_default = [c for c in all_cases if c.startswith("# default-constructed")]
+        v = C.compare(all_cases, all_impl, drvl)
+        rc, violations = 0, 0
+        if v.prop_fail or bad_default:
+            items = sorted(v.prop_fail, key=lambda it: (len(it[1]), it[0]))
+            case = items[0][1] if items else bad_default[0]
+            p = C.write_replay(pid, {"property": pid, "kind": "failing-configuration", "case": case,
+                                     "implementation": items[0][2] if items else "", "specification": items[0][4] if items else "",
+                                     "note": "args: TZDIR TZ LOCALTIME name (hex; NONE = unset, - = empty); the tree is rebuilt by the check", "others": [it[1] for it in items[1:15]]})
+            print("failing configuration: %s\n  implementation: %s\n  specification:  %s" % (case, items[0][2] if items else "", items[0][4] if items else ""))
+            print("VIOLATION property=%s replay=%s" % (pid, p))
+            rc, violations = 1, len(items) + len(bad_default)
+        elif v.corr_fail or not proof_ok:
+            p = C.write_replay(pid, {"property": pid, "kind": "unchecked", "failed_theorems": pr["failed"], "coq_log_tail": pr["log"][-2000:],
+                                     "correspondence_mismatches": [{"case": it[1], "implementation": it[2], "model": it[3], "why": it[5]} for it in v.corr_fail[:20]]})
+            for it in v.corr_fail[:5]:
+                print("correspondence mismatch: %s\n  impl : %s\n  model: %s (%s)" % (it[1], it[2], it[3], it[5]))
+            if not proof_ok:
+                print("proof obligations not discharged:", pr["failed"] or gate); print(pr["log"][-1200:])
+            print("VIOLATION property=%s replay=%s no-failing-input-found" % (pid, p))
+            rc, violations = 1, max(1, len(v.corr_fail))
+        samples = [{"case": all_cases[k], "implementation": all_impl[k], "model": drvl[k]} for k in range(0, len(all_cases), max(1, len(all_cases) // 6))][:8]
+        cov = {"obligations": max(1, len(pr["obligations"])), "discharged": len(pr["discharged"]), "theorems": pr["obligations"],
+               "failed_theorems": pr["failed"], "assumptions_printed": pr["axioms"],
+               "checker_cmd": "make -C /verif/coq ; coqc Properties_C19.v ; Print Assumptions",
+               "trusted_base": C.TRUSTED_BASE + ["kernel file semantics enter only through the measured fs oracle (open + read of each candidate path in the same tree)"],
+               "constants_tie": const_status, "evaluations": len(all_cases), "distinct_nontrivial": len(set(all_cases)),
+               "rule": "matrix TZDIR x TZ x LOCALTIME x names, each configuration in a child process; non-trivial = distinct (configuration, name)",
+               "samples": samples, "configurations": len(configs), "paths_measured": len(fs_measure), "in_domain": v.in_domain, "exhaustive": tier != "quick"}
+        C.write_evidence(pid, tier, seed, cov, time.time() - t0, violations, ["fopen/fread behave as measured by the orchestrator in the same tree"])
+        if rc == 0:
+            print("OK property=%s tier=%s cases=%d configurations=%d theorems=%d/%d wall=%.1fs" % (pid, tier, len(all_cases), len(configs), len(pr["discharged"]), len(pr["obligations"]), time.time() - t0))
+        return rc
+    finally:
+        try:
+            os.chmod(os.path.join(root, "tz", "unreadable"), 0o600)
+        except Exception:
+            pass
+        shutil.rmtree(root, ignore_errors=True)
+
+
+reg("C19", custom=run_c19)
